@@ -112,9 +112,9 @@ def main():
         "setup_cmd": "./setup.sh",
         "hooks": {
             "guard": "verif",
-            "enable": "go build -tags verif (adds cmd/rdpgw/protocol/export_verif.go; add-only)",
+            "enable": "go build -tags verif (adds cmd/rdpgw/protocol/export_verif.go and cmd/rdpgw/web/export_verif.go; add-only)",
             "baseline_off_cmd": "cd /repo && GOFLAGS=-mod=mod GOPROXY=off GOSUMDB=off go test -vet=off -count=1 $(go list ./... | grep -v 'rdpgw/cmd/auth$')",
-            "source_commits": ["3342c27"],
+            "source_commits": ["3342c27", "db249ea"],
             "add_only": True,
         },
         "engines": [
